@@ -40,6 +40,13 @@ def run(repo, rep):
     from . import c10 as _c10
 
     rep.run_borrowed(_c10, {"C10-a": "C02-s"}, repo)
+    rep.clause("C02-u", "what the registers describe is what was bounds-checked: kernel strides keep their axes on the way to NPU_SET_KERNEL_STRIDE [C10-c], the weight DMA starts at core 0's range [C08-l], the register elision compares with the value the hardware holds [C06-e]")
+    from . import c06 as _c06u
+    from . import c08 as _c08u
+
+    rep.run_borrowed(_c10, {"C10-c": "C02-u"}, repo, only_sites=("register_command_stream_util", "register_command_stream_generator", "high_level_command_to_npu_op"))
+    rep.run_borrowed(_c08u, {"C08-l": "C02-u"}, repo)
+    rep.run_borrowed(_c06u, {"C06-e": "C02-u"}, repo)
     rule_a(repo, rep)
     rule_b(repo, rep)
     rule_c(repo, rep)
